@@ -365,6 +365,12 @@ def run(ctx) -> None:
     if n_builders < 2:
         raise AnalysisError(f"RunEndEvent builders not recognised ({n_builders})")
 
+    # span ids identify a span only if they do not repeat within a trace: they are not drawn from the process-global
+    # random generator, which a node function may re-seed (per-item seeding in a map makes every item's ids repeat)
+    from .c13 import check_no_global_rng
+
+    check_no_global_rng(ctx, "C12.R1")
+
     # ---- R3 -------------------------------------------------------------------
     tmpl_methods = template_methods(db, "run") + template_methods(db, "map")
     for m in tmpl_methods:
